@@ -121,7 +121,7 @@ fn cases(nmax: usize, quick: bool) -> Vec<Case> {
 }
 
 pub fn run(ctx: &Ctx) -> Coverage {
-    let nmax = ctx.tier.pick(17, 40);
+    let nmax = ctx.tier.pick(30, 60);
     let cs = cases(nmax, ctx.quick());
     let vocab = vocab::b256();
     let evals = AtomicU64::new(0);
